@@ -84,7 +84,7 @@ CHECKS['C20'] = dict(
 
 CHECKS['C17'] = dict(
     technique='reference-model differential over generated multi-file module trees; enter/exit markers turn exactly-once and ordering into a history check over stdout',
-    text='Random acyclic module graphs (2-8 files, package directories, whole/renamed/selected-symbol imports in random order and multiplicity, exports of let/fn/class, functions over private counters, missing modules, non-exported and private names) are written to disk and run on debug, release and debug under a collection schedule; stdout (module enter/exit markers, received values) and the terminal outcome are compared with a reference module model with snapshot instances.',
+    text='Random acyclic module graphs (2-8 files, package directories, whole/renamed/selected-symbol imports in random order and multiplicity, exports of let/fn/class, functions over private counters, missing modules, non-exported and private names) are written to disk and run on debug, release and debug under a collection schedule; an enumerated family of 80 programs imports while other fibers exist (workers launched before the import that finish, park or stay runnable; module bodies that launch helpers and wait on channels; nested imports; both import forms; repeated import) and is judged by a history check over start/end/after markers against a committed per-case list (known finding D45); stdout (module enter/exit markers, received values) and the terminal outcome are compared with a reference module model with snapshot instances.',
     note=_MODEL_NOTE + ' Cyclic imports are outside the property.', ref='DESIGN.md §2 C17')
 
 CHECKS['C18'] = dict(
